@@ -297,6 +297,11 @@ def random_instance(rng, max_points=64, nvars=None, backend='autoref',
         care = [p for p in grid if rng.random() < d] or grid[:1]
     d = rng.choice([0.2, 0.4, 0.6, 0.8])
     f = [p for p in grid if rng.random() < d]
+    if nv > 1 and rng.random() < 0.15:
+        # f independent of one variable (a cylinder); care still depends on it
+        j = rng.randrange(nv)
+        base = {p[:j] + p[j + 1:] for p in f if rng.random() < 0.6}
+        f = [p for p in grid if p[:j] + p[j + 1:] in base]
     if f_in_care is None:
         f_in_care = rng.random() < 0.75
     if f_in_care and care is not None:
